@@ -481,7 +481,7 @@ def runImplCmds (want : Nat → String) (t : KittyTerm.Term) (toks : List String
         let w := want id
         let why := why.orElse fun _ =>
           if w ≠ "" ∧ t.data id ≠ some (dataCode w) then
-            some s!"image {id} placed at {c},{r} while the terminal holds {match t.data id with | none => "no data" | some _ => "older data"} for it: its last Resize produced {w} px"
+            some s!"image {id} placed at {c},{r} while the terminal holds {match t.data id with | none => "no data" | some _ => "other (older, or not the resized picture's) data"} for it: its last Resize produced {w} px"
           else none
         (t.apply (.place ⟨id, c, r, 0, 0⟩), (id, c, r) :: keys, why)
       | none => acc
